@@ -636,6 +636,15 @@ func (s *isim) applyGet(op simcore.Op) {
 	e.Count("op.get")
 }
 
+// searchSig: core queries keep the kind of failure in the signature; for the input classes where the
+// outcome (panic / error / wrong set) may depend on map order inside Search, one signature per class.
+func searchSig(kind, feat string) string {
+	if feat != "" {
+		return "search-wrong" + feat
+	}
+	return "search-" + kind
+}
+
 // refVerdict evaluates a search query over one item's searchable attributes under both
 // readings of range conditions; they must agree for the verdict to be binding.
 func refVerdict(cs []cond, attrs map[string][]string) tri {
@@ -663,11 +672,11 @@ func (s *isim) searchTxs(cs []cond, tight bool) {
 	}()
 	e.Count("op.search_tx")
 	if pan != nil {
-		e.Fail("C19", "search-panic"+feat, "TxIndex.Search(%q) panicked: %v", qstr, pan)
+		e.Fail("C19", searchSig("panic", feat), "TxIndex.Search(%q) panicked: %v", qstr, pan)
 		return
 	}
 	if err != nil {
-		e.Fail("C19", "search-error"+feat, "TxIndex.Search(%q) failed: %v", qstr, err)
+		e.Fail("C19", searchSig("error", feat), "TxIndex.Search(%q) failed: %v", qstr, err)
 		return
 	}
 	byHash := map[string]*txRec{}
@@ -677,17 +686,17 @@ func (s *isim) searchTxs(cs []cond, tight bool) {
 	seen := map[string]bool{}
 	for _, g := range res {
 		if g == nil {
-			e.Fail("C19", "search-mismatch"+feat, "TxIndex.Search(%q) returned a nil result", qstr)
+			e.Fail("C19", searchSig("mismatch", feat), "TxIndex.Search(%q) returned a nil result", qstr)
 			continue
 		}
 		sum := sha256.Sum256(g.Tx)
 		r := byHash[string(sum[:])]
 		if r == nil {
-			e.Fail("C19", "search-mismatch"+feat, "TxIndex.Search(%q) returned a tx that was never committed: %q", qstr, g.Tx)
+			e.Fail("C19", searchSig("mismatch", feat), "TxIndex.Search(%q) returned a tx that was never committed: %q", qstr, g.Tx)
 			continue
 		}
 		if seen[string(r.hash)] {
-			e.Fail("C19", "search-duplicate"+feat, "TxIndex.Search(%q) returned tx %d/%d twice", qstr, r.height, r.index)
+			e.Fail("C19", searchSig("duplicate", feat), "TxIndex.Search(%q) returned tx %d/%d twice", qstr, r.height, r.index)
 		}
 		seen[string(r.hash)] = true
 		s.sameTx("Search", g, r)
@@ -698,9 +707,9 @@ func (s *isim) searchTxs(cs []cond, tight bool) {
 		in := seen[string(r.hash)]
 		switch {
 		case v == yes && !in:
-			e.Fail("C19", "search-mismatch"+feat, "TxIndex.Search(%q) misses tx %d/%d whose indexed attributes %v satisfy the query (returned %d results)", qstr, r.height, r.index, r.attrs, len(res))
+			e.Fail("C19", searchSig("mismatch", feat), "TxIndex.Search(%q) misses tx %d/%d whose indexed attributes %v satisfy the query (returned %d results)", qstr, r.height, r.index, r.attrs, len(res))
 		case v == no && in:
-			e.Fail("C19", "search-mismatch"+feat, "TxIndex.Search(%q) returns tx %d/%d whose indexed attributes %v do not satisfy the query", qstr, r.height, r.index, r.attrs)
+			e.Fail("C19", searchSig("mismatch", feat), "TxIndex.Search(%q) returns tx %d/%d whose indexed attributes %v do not satisfy the query", qstr, r.height, r.index, r.attrs)
 		}
 		if v == yes {
 			nYes++
@@ -738,20 +747,20 @@ func (s *isim) searchBlocks(cs []cond, tight bool) {
 	}()
 	e.Count("op.search_block")
 	if pan != nil {
-		e.Fail("C19", "search-panic"+feat, "BlockerIndexer.Search(%q) panicked: %v", qstr, pan)
+		e.Fail("C19", searchSig("panic", feat), "BlockerIndexer.Search(%q) panicked: %v", qstr, pan)
 		return
 	}
 	if err != nil {
-		e.Fail("C19", "search-error"+feat, "BlockerIndexer.Search(%q) failed: %v", qstr, err)
+		e.Fail("C19", searchSig("error", feat), "BlockerIndexer.Search(%q) failed: %v", qstr, err)
 		return
 	}
 	seen := map[int64]bool{}
 	for _, h := range res {
 		if h < 1 || h > s.height {
-			e.Fail("C19", "search-mismatch"+feat, "BlockerIndexer.Search(%q) returned height %d that was never committed", qstr, h)
+			e.Fail("C19", searchSig("mismatch", feat), "BlockerIndexer.Search(%q) returned height %d that was never committed", qstr, h)
 		}
 		if seen[h] {
-			e.Fail("C19", "search-duplicate"+feat, "BlockerIndexer.Search(%q) returned height %d twice", qstr, h)
+			e.Fail("C19", searchSig("duplicate", feat), "BlockerIndexer.Search(%q) returned height %d twice", qstr, h)
 		}
 		seen[h] = true
 	}
@@ -761,9 +770,9 @@ func (s *isim) searchBlocks(cs []cond, tight bool) {
 		in := seen[b.height]
 		switch {
 		case v == yes && !in:
-			e.Fail("C19", "search-mismatch"+feat, "BlockerIndexer.Search(%q) misses block %d whose indexed attributes %v satisfy the query (returned %v)", qstr, b.height, b.attrs, res)
+			e.Fail("C19", searchSig("mismatch", feat), "BlockerIndexer.Search(%q) misses block %d whose indexed attributes %v satisfy the query (returned %v)", qstr, b.height, b.attrs, res)
 		case v == no && in:
-			e.Fail("C19", "search-mismatch"+feat, "BlockerIndexer.Search(%q) returns block %d whose indexed attributes %v do not satisfy the query", qstr, b.height, b.attrs)
+			e.Fail("C19", searchSig("mismatch", feat), "BlockerIndexer.Search(%q) returns block %d whose indexed attributes %v do not satisfy the query", qstr, b.height, b.attrs)
 		}
 		if v == yes {
 			nYes++
